@@ -31,6 +31,14 @@ enum Hk {
     Attempt(u64, usize),
     ECall(u64, String, String),
     ERet(u64, Result<usize, String>),
+    // stack driver: client-level call / return, handle drop, release of the wrapped sink
+    CCall(u64, String),
+    #[allow(dead_code)]
+    CRet(u64, String, Result<usize, String>),
+    DropBegin(u64),
+    #[allow(dead_code)]
+    DropEnd(u64),
+    WDropped(u64),
 }
 static HOOKS: Mutex<Vec<Hk>> = Mutex::new(Vec::new());
 fn hk(e: Hk) {
@@ -509,6 +517,7 @@ pub fn conc(a: &Args) {
                             evs.append(&mut sectionless);
                         }
                     }
+                    Hk::CCall(..) | Hk::CRet(..) | Hk::DropBegin(_) | Hk::DropEnd(_) | Hk::WDropped(_) => {}
                     Hk::ERet(tid, r) => {
                         let rv = match &r {
                             Ok(n) => json!({"ev":"ret","ok":true,"n":n,"kind":""}),
@@ -591,4 +600,193 @@ pub fn conc(a: &Args) {
     let _ = std::fs::remove_dir_all(sockdir());
     t.finish();
     summary(json!({"engine":"sink-conc","seed":seed,"runs":runs,"calls":calls,"events":t.count(),"sample":sample}));
+}
+
+// ------------------------------------------------------------------ the whole stack (Stack.tla)
+/// logs what reaches the buffered sink (on whatever thread) and when it is released
+struct LogSink<S: MetricSink> {
+    inner: S,
+}
+impl<S: MetricSink> MetricSink for LogSink<S> {
+    fn emit(&self, m: &str) -> std::io::Result<usize> {
+        hk(Hk::ECall(tid(), "emit".into(), m.to_string()));
+        let r = self.inner.emit(m);
+        hk(Hk::ERet(tid(), r.as_ref().map(|n| *n).map_err(|e| format!("{:?}", e.kind()))));
+        r
+    }
+    fn flush(&self) -> std::io::Result<()> {
+        hk(Hk::ECall(tid(), "flush".into(), String::new()));
+        let r = self.inner.flush();
+        hk(Hk::ERet(tid(), r.as_ref().map(|_| 0).map_err(|e| format!("{:?}", e.kind()))));
+        r
+    }
+    fn stats(&self) -> cadence::SinkStats {
+        self.inner.stats()
+    }
+}
+impl<S: MetricSink> Drop for LogSink<S> {
+    fn drop(&mut self) {
+        // the inner sink (and its BufWriter) is dropped right after this body
+        hk(Hk::WDropped(tid()));
+    }
+}
+
+/// StatsdClient -> QueuingMetricSink -> buffered sink -> wire, one producer, random flushes, final drop.
+/// The same execution is written twice: as a queue-level trace (QueueTrace.tla) and as a
+/// writer-level trace serialised by the lock hooks (WriterTrace.tla).
+pub fn stack(a: &Args) {
+    let seed = a.num("seed", 1);
+    let runs = a.num("runs", 10);
+    let tq = Trace::create(&a.req("out-queue"));
+    let tw = Trace::create(&a.req("out-writer"));
+    install();
+    let mut rng = StdRng::seed_from_u64(seed ^ 0x57ac_0008);
+    let mut calls = 0u64;
+    let mut sample = json!(null);
+    for run in 0..runs {
+        let cap = [8usize, 24, 64, 200, 512][rng.random_range(0..5)];
+        let qcap: Option<usize> = [None, Some(1), Some(2), Some(5), Some(64)][rng.random_range(0..5)];
+        let udp = run % 2 == 1;
+        let n = rng.random_range(5..=80u64);
+        let (wire, q): (Wire, QueuingMetricSink) = if udp {
+            let (w, addr, s) = udp_wire();
+            let inner = LogSink { inner: BufferedUdpMetricSink::with_capacity(addr, s, cap).unwrap() };
+            (w, match qcap { Some(c) => QueuingMetricSink::with_capacity(inner, c), None => QueuingMetricSink::from(inner) })
+        } else {
+            let (rx, s) = BufferedSpyMetricSink::with_capacity(None, Some(cap));
+            let inner = LogSink { inner: s };
+            (Wire::Spy(rx), match qcap { Some(c) => QueuingMetricSink::with_capacity(inner, c), None => QueuingMetricSink::from(inner) })
+        };
+        let client = StatsdClient::from_sink("", q);
+        let me = tid();
+        take_hooks();
+        for i in 0..n {
+            if rng.random_range(0..8) == 0 {
+                let _ = client.flush();
+            } else {
+                let len = rng.random_range(0..(cap + 6)).max(8).min(300);
+                let key = metric(run * 10_000 + i, len);
+                let line = format!("{}:{}|g", key, i);
+                hk(Hk::CCall(me, line.clone()));
+                let r = catch_unwind(AssertUnwindSafe(|| client.gauge(&key, i)));
+                hk(Hk::CRet(me, line, match r {
+                    Ok(Ok(m)) => Ok(m.as_metric_str().len()),
+                    Ok(Err(e)) => Err(std::error::Error::source(&e).map(|s| s.to_string()).unwrap_or_else(|| e.to_string())),
+                    Err(_) => Err("PANIC".into()),
+                }));
+                calls += 1;
+            }
+            if rng.random_range(0..4) == 0 {
+                std::thread::sleep(Duration::from_micros(rng.random_range(0..300)));
+            }
+        }
+        hk(Hk::DropBegin(me));
+        drop(client);
+        hk(Hk::DropEnd(me));
+        // the worker drains, stops and releases the wrapped sink: wait for it (bounded)
+        let t0 = Instant::now();
+        let mut released = false;
+        while t0.elapsed() < Duration::from_secs(10) {
+            if HOOKS.lock().unwrap().iter().any(|h| matches!(h, Hk::WDropped(_))) {
+                released = true;
+                break;
+            }
+            std::thread::sleep(Duration::from_micros(200));
+        }
+        std::thread::sleep(Duration::from_millis(5)); // the BufWriter's Drop runs right after LogSink::drop
+        let hooks = take_hooks();
+        let mut rcv: VecDeque<Vec<u8>> = wire.drain(0, Duration::from_millis(30)).into();
+        // ---- queue-level trace
+        tq.ev(json!({"ev":"reset","cap":qcap.map(|c| c as u64).unwrap_or(1_000_000),"eh":false,"run":run,"stack":true}));
+        let mut inflight: std::collections::HashMap<u64, (String, String)> = Default::default();
+        for h in &hooks {
+            match h {
+                Hk::CCall(t, m) => tq.ev(json!({"ev":"ecall","h":1,"m":m,"tid":t})),
+                Hk::CRet(_, m, Ok(nn)) => tq.ev(json!({"ev":"eret","m":m,"ok":true,"n":nn,"msg":"","len":m.len()})),
+                Hk::CRet(_, m, Err(k)) if k == "PANIC" => tq.ev(json!({"ev":"epanic","m":m})),
+                Hk::CRet(_, m, Err(k)) => tq.ev(json!({"ev":"eret","m":m,"ok":false,"n":0,"msg":k,"len":m.len()})),
+                Hk::ECall(t, op, m) => {
+                    if op == "emit" {
+                        tq.ev(json!({"ev":"wenter","m":m,"tid":t}));
+                    }
+                    inflight.insert(*t, (op.clone(), m.clone()));
+                }
+                Hk::ERet(t, r) => {
+                    if let Some((op, m)) = inflight.remove(t) {
+                        if op == "emit" {
+                            match r {
+                                Ok(_) => tq.ev(json!({"ev":"wleave","m":m,"o":"ok","msg":""})),
+                                Err(k) => tq.ev(json!({"ev":"wleave","m":m,"o":"err","msg":k})),
+                            }
+                        }
+                    }
+                }
+                Hk::DropBegin(t) => tq.ev(json!({"ev":"dropbegin","h":1,"tid":t})),
+                Hk::DropEnd(_) => tq.ev(json!({"ev":"dropend","h":1,"panicked":false})),
+                Hk::WDropped(t) => tq.ev(json!({"ev":"wdropped","tid":t})),
+                _ => {}
+            }
+        }
+        tq.ev(json!({"ev":"end","released":released,"exited":released}));
+        // ---- writer-level trace, in the order of the critical sections
+        tw.ev(json!({"ev":"reset","cap":cap,"tlen":1,"term":"0a","kind":if udp {"stack-budp"} else {"stack-bspy"},"run":run}));
+        let mut cur: std::collections::HashMap<u64, (String, String)> = Default::default();
+        let mut evs: Vec<Value> = vec![];
+        let mut open_ret: std::collections::HashMap<u64, usize> = Default::default();
+        let mut dropping = false;
+        for h in hooks {
+            match h {
+                Hk::ECall(t, op, m) => {
+                    cur.insert(t, (op, m));
+                }
+                Hk::Locked(t) => {
+                    evs.push(json!({"ev":"lock","t":t}));
+                    if let Some((op, m)) = cur.get(&t) {
+                        evs.push(json!({"ev":"call","op":op,"hex":hex(m.as_bytes()),"len":m.len()}));
+                    }
+                }
+                Hk::Attempt(t, len) => match rcv.pop_front() {
+                    Some(d) => evs.push(json!({"ev":"att","hex":hex(&d),"len":d.len(),"ok":true,"kind":"","t":t})),
+                    None => evs.push(json!({"ev":"att","hex":"?","len":len,"ok":false,"kind":"lost","t":t})),
+                },
+                Hk::Unlocking(t) => {
+                    open_ret.insert(t, evs.len());
+                    evs.push(json!(null));
+                    evs.push(json!({"ev":"unlock","t":t}));
+                }
+                Hk::ERet(t, r) => {
+                    cur.remove(&t);
+                    if let Some(ix) = open_ret.remove(&t) {
+                        evs[ix] = match r {
+                            Ok(nn) => json!({"ev":"ret","ok":true,"n":nn,"kind":""}),
+                            Err(k) => json!({"ev":"ret","ok":false,"n":0,"kind":k}),
+                        };
+                    }
+                }
+                Hk::WDropped(_) => {
+                    dropping = true;
+                    evs.push(json!({"ev":"call","op":"drop","hex":"","len":0}));
+                }
+                _ => {}
+            }
+        }
+        if dropping {
+            evs.push(json!({"ev":"ret","ok":true,"n":0,"kind":""}));
+        }
+        for d in rcv {
+            evs.push(json!({"ev":"att","hex":hex(&d),"len":d.len(),"ok":true,"kind":"","stray":true}));
+        }
+        for e in evs {
+            if !e.is_null() {
+                tw.ev(e);
+            }
+        }
+        if run == 0 {
+            sample = json!({"sink":if udp {"BufferedUdpMetricSink"} else {"BufferedSpyMetricSink"},"cap":cap,"queue_cap":qcap,"calls":n});
+        }
+    }
+    cadence::verif::install(None);
+    tq.finish();
+    tw.finish();
+    summary(json!({"engine":"stack-drive","seed":seed,"runs":runs,"calls":calls,"events":tq.count() + tw.count(),"sample":sample}));
 }
